@@ -34,6 +34,7 @@ def extra_variants():
     out.append(dict(base, name="x-routes", extra="routes"))
     out.append(dict(base, name="x-green-order", extra="green"))
     out.append(dict(base, name="x-acl-last-slots", extra="acl"))
+    out.append(dict(base, name="x-shared-options", extra="shared-options"))
     return out
 
 
@@ -51,7 +52,10 @@ def build_cfg(v):
         for n in nodes:
             if n["hostname"] == "router_1":
                 n["routes"] = [{"address": "10.1.0.0", "subnet_mask": "255.255.0.0", "next_hop_ip_address": "192.168.1.12", "metric": 2},
-                               {"address": "10.1.1.0", "subnet_mask": "255.255.255.0", "next_hop_ip_address": "192.168.1.14"}]
+                               {"address": "10.1.1.0", "subnet_mask": "255.255.255.0", "next_hop_ip_address": "192.168.1.14"},
+                               # a primary and a backup route to the same network (two entries, not one)
+                               {"address": "10.2.0.0", "subnet_mask": "255.255.0.0", "next_hop_ip_address": "192.168.1.12", "metric": 1},
+                               {"address": "10.2.0.0", "subnet_mask": "255.255.0.0", "next_hop_ip_address": "192.168.1.16", "metric": 10}]
                 n["default_route"] = {"next_hop_ip_address": "192.168.10.22"}
             if n["hostname"] == "web_server":
                 n["services"].append({"type": "ntp-server"})
@@ -68,6 +72,16 @@ def build_cfg(v):
                 n["acl"][23] = {"action": "DENY", "protocol": "TCP", "src_ip": HE.IPS["client_2"], "dst_ip": HE.IPS["database_server"]}
                 n["acl"][0] = {"action": "PERMIT", "src_port": "ARP", "dst_port": "ARP"}
                 n["acl"][1] = {"action": "PERMIT", "protocol": "ICMP"}
+    if v.get("extra") == "shared-options":
+        # what a YAML anchor/alias produces: several services refer to ONE options mapping object
+        shared = {"fixing_duration": 4}
+        for n in nodes:
+            for svc in n.get("services", []) or []:
+                if svc["type"] in ("web-server", "ftp-server", "ftp-client", "dns-client"):
+                    svc["options"] = shared
+            for app in n.get("applications", []) or []:
+                if app["type"] == "web-browser":
+                    app.setdefault("options", {})["fixing_duration"] = 5
     if v.get("extra") == "green":
         g = [a for a in cfg["agents"] if a["ref"] == "green_1"][0]
         g["agent_settings"]["action_probabilities"] = {2: 0.2, 0: 0.3, 1: 0.5}
